@@ -87,9 +87,71 @@ def judge(chk, lines, pend):
                           dict(info, code_answer=got[:40], implied_by_parameters=exp[:40]), found_input=True)
 
 
+def run_mle_cases(chk, n):
+    """GraphicalModel.mle on exact clique marginals of random positive joints: the code's potentials vs the function GENERATED from mle
+    (build/genrun mle_src) - the one C08_src_mle_is_factorisation is about; the clique order must be a DFS preorder of the tree
+    (hypothesis of that theorem) and belief propagation on the returned parameters must give the marginals back."""
+    from mbi import Domain, GraphicalModel, Factor, CliqueVector
+    rng = chk.rng
+    lines, pend = [], []
+    for _ in range(n):
+        attrs, sizes, cliques, order, mode = pgmgen.gen_structure(rng, max_attrs=5, max_cells=200)
+        ids = pgmgen.ids_of(attrs); cfg = dict(zip(attrs, sizes))
+        total = rng.choice([1.0, 10.0, 250.0])
+        np.random.seed(rng.randrange(2 ** 31))
+        model = GraphicalModel(Domain(attrs, sizes), [tuple(c) for c in cliques], total, elimination_order=order)
+        mcl = list(model.cliques); idx = {cl: i for i, cl in enumerate(mcl)}
+        pots = [(list(cl), [Fraction(rng.randint(1, 9), rng.randint(1, 9)) for _ in range(math.prod(cfg[a] for a in cl))]) for cl in mcl]
+        joint = pgmgen.brute_joint(attrs, sizes, pots)
+        marg = {cl: pgmgen.brute_marginal(attrs, sizes, joint, list(cl), Fraction(total))[0] for cl in mcl}
+        info = dict(attrs=attrs, sizes=sizes, cliques=[list(c) for c in cliques], elimination_order=order, total=total, model_cliques=[list(c) for c in mcl])
+        chk.count('mle.direct'); chk.case(('mle', json.dumps(info, default=str)), len(mcl) >= 2)
+        # hypothesis: self.cliques is a DFS preorder of the tree
+        tree = model.junction_tree.tree; stack = [mcl[0]]; ok = True
+        for v in mcl[1:]:
+            while stack and not tree.has_edge(stack[-1], v):
+                stack.pop()
+            if not stack:
+                ok = False; break
+            stack.append(v)
+        if not ok or len(set(mcl)) != len(mcl):
+            chk.violation(dict(kind='mle-order'), 'model.cliques is not a depth-first preorder of the junction tree (mle relies on it)', info, found_input=False)
+            continue
+        with np.errstate(all='ignore'):
+            cv = CliqueVector({cl: Factor(model.domain.project(cl), np.array([float(v) for v in marg[cl]]).reshape([cfg[a] for a in cl])) for cl in mcl})
+            pot = model.mle(cv)
+            back = model.belief_propagation(pot)
+        code = [[math.exp(float(v)) for v in np.asarray(pot[cl].values, dtype=float).reshape(-1)] if list(pot[cl].domain.attrs) == list(cl) else None for cl in mcl]
+        parts = [pgmgen.dom_tok(attrs, sizes, ids), str(len(mcl))]
+        for cl in mcl:
+            nb = sorted(idx[c] for c in model.neighbors[cl])
+            parts += [ltok([ids[a] for a in cl]), ltok(nb), ltok([(a, cfg[a]) for a in cl], lambda p: '%d %d' % (ids[p[0]], p[1])), ltok(marg[cl], qtok)]
+        lines.append('mle_src ' + ' '.join(parts)); pend.append((info, code, mcl))
+        for cl in mcl:
+            b = np.asarray(back[cl].values, dtype=float).reshape(-1)
+            if list(back[cl].domain.attrs) != list(cl) or not all(abs(x - float(q)) <= 1e-7 * max(1.0, float(q)) for x, q in zip(b, marg[cl])):
+                chk.violation(dict(kind='mle-reproduces'), 'belief_propagation(mle(mu)) differs from the consistent clique marginals mu it was fitted to (clique %s)' % ''.join(cl), info, found_input=True)
+                break
+    outs = common.run_gen(lines)
+    for (info, code, mcl), out in zip(pend, outs):
+        try:
+            tabs = [parse_qlist('[' + t.strip().strip('[]') + ']') for t in out.replace('] [', ']|[').split('|')]
+            agree = len(tabs) == len(code) and all(c is not None and len(c) == len(t) and all(abs(x - float(q)) <= 1e-9 * max(abs(float(q)), 1e-300) for x, q in zip(c, t)) for c, t in zip(code, tabs))
+        except Exception:
+            agree = False
+        if not agree:
+            chk.violation(dict(kind='translator-validation', what='mle'), 'the definition generated from GraphicalModel.mle disagrees with the running code (or could not be run)',
+                          dict(info, generated=out[:300], code=[c[:6] if c else c for c in code], broken='translator validation: translator/py2gallina_bp.py <-> GraphicalModel.mle'), found_input=False)
+
+
 def main(chk):
     from mbi import Domain, FactoredInference
     chk.prove()
+    tok, tmsg = getattr(chk, 'translators', {}).get('bp', (True, ''))
+    if not tok:
+        chk.violation(dict(kind='translator'), 'GraphicalModel.mle / belief_propagation left the translated subset: C08_src_mle_is_factorisation is not re-checked against the current source',
+                      dict(broken='Gen/BP_gen.v (translator/py2gallina_bp.py on src/mbi/graphical_model.py); Props/C08.v C08_src_*', translator_message=tmsg), found_input=False)
+    run_mle_cases(chk, 40 if chk.tier == 'quick' else 400)
     rng = chk.rng
     n = 150 if chk.tier == 'quick' else 900
     lines, pend = [], []
